@@ -60,11 +60,52 @@ func (ti *TypeInfo) keyDomain(i int) int {
 	return d
 }
 
+// identifier values whose decimal texts collide when two of them are written one after the other
+// without a separator: (1,11) / (11,1), (1,111) / (11,11) / (111,1), (12,1) / (1,21), (11,2..) ...
+var collidingIDs = []int64{1, 11, 111, 12, 21, 112, 121, 211}
+
+// multiUint: the identifier has two or more numeric parts
+func (ti *TypeInfo) multiUint() bool {
+	n := 0
+	for _, i := range ti.Keys {
+		if ti.Fields[i].Kind == KUint {
+			n++
+		}
+	}
+	return n >= 2
+}
+
 func (ti *TypeInfo) randKey(r *hx.Rng) []int64 {
 	k := make([]int64, len(ti.Keys))
 	for j, i := range ti.Keys {
 		k[j] = int64(1 + r.Intn(ti.keyDomain(i)))
 	}
+	if ti.multiUint() && r.Chance(1, 2) {
+		// multi-part numeric identifiers: parts whose digits collide, mostly from {1, 11, 111} so that
+		// colliding pairs meet in one list
+		for j, i := range ti.Keys {
+			if ti.Fields[i].Kind != KUint || ti.Fields[i].Domain <= 211 {
+				continue
+			}
+			if r.Chance(3, 4) {
+				k[j] = collidingIDs[r.Intn(3)]
+			} else {
+				k[j] = collidingIDs[r.Intn(len(collidingIDs))]
+			}
+		}
+	}
+	// at most 10 different identifiers per history: the lists stay within the 12 elements for which
+	// sort.Slice is the insertion sort of the model
+	ks := hx.Zs(k).String()
+	for _, p := range ti.keyPool {
+		if hx.Zs(p).String() == ks {
+			return k
+		}
+	}
+	if len(ti.keyPool) >= 10 {
+		return append([]int64(nil), ti.keyPool[r.Intn(len(ti.keyPool))]...)
+	}
+	ti.keyPool = append(ti.keyPool, append([]int64(nil), k...))
 	return k
 }
 
@@ -271,6 +312,7 @@ func (ti *TypeInfo) GenHistory(r *hx.Rng, cfg GenCfg) []hx.Zs {
 		direct = 1
 	}
 	h := []hx.Zs{{0, int64(ti.Index), direct, int64(cfg.Family)}}
+	ti.keyPool = nil
 	maxLen := cfg.MaxLen
 	if maxLen == 0 {
 		maxLen = 8
